@@ -131,7 +131,7 @@ def run_one(job):
     lines.append("CHECK_DEADLOCK FALSE")
     cfgtext = "\n".join(lines) + "\n"
     open(os.path.join(d, "m.cfg"), "w").write(cfgtext)
-    cmd = ["java", "-XX:+UseParallelGC", "-Xmx2g", "-cp", JAR, "tlc2.TLC", "-simulate", "file=%s/tr/t,num=%d" % (d, num), "-depth", str(depth),
+    cmd = ["java", "-Djava.io.tmpdir=" + d, "-XX:+UseParallelGC", "-Xmx2g", "-cp", JAR, "tlc2.TLC", "-simulate", "file=%s/tr/t,num=%d" % (d, num), "-depth", str(depth),
            "-seed", str(seed), "-aril", "0", "-workers", "1", "-config", "m.cfg", "-metadir", os.path.join(d, "meta"), mod]
     t0 = time.time()
     try:
@@ -191,7 +191,7 @@ def reproduce_known(k):
     shutil.copy(spec, d)
     for ext in (".tla", ".cfg"):
         shutil.copy(os.path.join(V, "tla", "known", k["script"] + ext), d)
-    cmd = ["java", "-XX:+UseParallelGC", "-Xmx1g", "-cp", JAR, "tlc2.TLC", "-workers", "1", "-config", k["script"] + ".cfg",
+    cmd = ["java", "-Djava.io.tmpdir=" + d, "-XX:+UseParallelGC", "-Xmx1g", "-cp", JAR, "tlc2.TLC", "-workers", "1", "-config", k["script"] + ".cfg",
            "-metadir", os.path.join(d, "meta"), k["script"] + ".tla"]
     try:
         r = subprocess.run(cmd, cwd=d, stdout=subprocess.PIPE, stderr=subprocess.STDOUT, text=True, timeout=600)
